@@ -253,9 +253,17 @@ def withBraceBlock (m : M Node) : M Node := do
   | .ok e => pure e
   | .error e => throwE e
 
-/-- `if p.node.Token.ID == TokenCOMMA { err = skipToken(p, TokenCOMMA) }` -/
-def skipComma : M Unit := do
-  if (← curId) = T_COMMA then skipToken [T_COMMA] else pure ()
+/-- `if p.node.Token.ID == id { err = skipToken(p, id) }` -/
+def skipOpt (id : Nat) : M Unit := do
+  if (← curId) = id then skipToken [id] else pure ()
+
+def skipComma : M Unit := skipOpt T_COMMA
+
+/-- `p.node != nil && p.node.Token.ID != id` -/
+def curIsNot (id : Nat) : M Bool := do
+  match (← getP).node with
+  | none => pure false
+  | some n => do let t ← tokOf n; pure (t.id != id)
 
 mutual
 def run : Nat → Nat → M Node
@@ -473,15 +481,11 @@ def innerStatements : Nat → Node → M Node
   | f+1, self => do
     skipToken [T_LBRACE]
     let st ← mkNode T_STATEMENTS none
-    let notRbrace ← (do match (← getP).node with
-      | none => pure false
-      | some n => do let t ← tokOf n; pure (t.id != T_RBRACE))
+    let notRbrace ← curIsNot T_RBRACE
     let st ← (
       if notRbrace then do
         let n ← run f 0                       -- `if err != nil { return nil, err }` further down
-        let proceed ← (do match (← getP).node with
-          | none => pure false
-          | some nx => do let t ← tokOf nx; pure (t.id != T_EOF))
+        let proceed ← curIsNot T_EOF
         if proceed then moreStatements f (st.add (some n)) n
         else pure st
       else pure st)
@@ -509,7 +513,7 @@ def topLoop : Nat → Node → Node → M Node
   | 0, _, _ => throwE .fuel
   | f+1, st, n => do
     if ← hasMoreStatements n then do
-      if (← curId) = T_SEMICOLON then skipToken [T_SEMICOLON] else pure ()
+      skipOpt T_SEMICOLON
       let n' ← run f 0
       topLoop f (st.add (some n')) n'
     else pure st
